@@ -55,8 +55,16 @@ def c19_1(ck, prog):
         lib.Guard('get_string(User)', lambda c, ctx: getstr('User')(c))])
     # check_service_name: TRUE only when Name was read and equals the requested name, whole string
     cs = prog.fn('check_service_name', H)
-    cmps = [c for b, i, c in cs.calls() if any(is_ref(a, 'service_name') for a in c['args'])
-            and any(is_ref(a, 'name_tmp') for a in c['args'])]
+    # the requested name is the second parameter; the declared name is whatever local receives the Name key
+    req_id = cs.params[1]['id'] if len(cs.params) > 1 else None
+    decl_ids = set()
+    for b, i, c in cs.calls('bus_desktop_file_get_string'):
+        if c['args'][2].get('k') == 'str' and c['args'][2]['v'] == 'Name':
+            out = strip_addr(c['args'][3])
+            if out is not None and is_ref(out):
+                decl_ids.add(out.get('id'))
+    cmps = [c for b, i, c in cs.calls() if any(is_ref(a) and a.get('id') == req_id for a in c['args'])
+            and any(is_ref(a) and a.get('id') in decl_ids for a in c['args'])]
     for c in cmps:
         if c.get('callee') not in STRING_EQUALITY:
             r.violation('check_service_name:comparator', cs.name, H, c['line'],
@@ -130,14 +138,20 @@ def c19_2(ck, prog):
     (r.ok('activate_service:append-to-pending-queue') if okq else
      r.violation('activate_service:append-to-pending-queue', fn.name, A, fn.line,
                  'held messages are no longer appended to pending_activation->entries'))
-    for b, i, ev in fn.events():
-        for lhs, how, rhs in written_lvalues(ev):
-            if is_ref(lhs, 'was_pending_activation') and rhs is not None:
-                if estr(rhs) in ('(pending_activation != NULL)',):
-                    r.ok('activate_service:was_pending-definition')
-                else:
-                    r.violation('activate_service:was_pending-definition', fn.name, A, ev['line'],
-                                'was_pending_activation is computed as %s' % estr(rhs))
+    from engine.cfg import norm_cond
+    conds, others = lib.bool_definitions(fn, 'was_pending_activation')
+    for cexpr, line in conds:
+        atom, sense = norm_cond(cexpr)
+        if atom is not None and atom[0] == 'truthy' and is_ref(atom[1], 'pending_activation') and sense is True:
+            r.ok('activate_service:was_pending-definition')
+        else:
+            r.violation('activate_service:was_pending-definition', fn.name, A, line,
+                        'was_pending_activation is computed as %s, not as "a pending activation exists"' % estr(cexpr))
+    for rhs, line in others:
+        r.violation('activate_service:was_pending-definition', fn.name, A, line,
+                    'was_pending_activation is computed as %s' % estr(rhs))
+    if not conds and not others:
+        raise AnalysisBroken('was_pending_activation is no longer defined in bus_activation_activate_service')
 
 
 def c19_3(ck, prog):
